@@ -150,9 +150,16 @@ class Program(object):
                     )
 
                 if isinstance(argument_node.value.value, list):
-                    arguments[argument_node.name] = resolve_list(
-                        argument_node.name, argument_node.value
-                    )
+                    try:
+                        arguments[argument_node.name] = resolve_list(
+                            argument_node.name, argument_node.value
+                        )
+                    except RecursionError:
+                        raise SyntaxError(
+                            "Syntax error: the list given for {} on line {} is nested too deeply".format(
+                                argument_node.name, argument_node.lineno
+                            )
+                        )
                 elif isinstance(argument_node.value.value, dict):
                     arguments[argument_node.name] = Argument(
                         argument_node.name,
